@@ -265,7 +265,7 @@ def run_ts(stmts, env):
                 continue
             if isinstance(v, ast.Call) and ast.unparse(v.func) == "np.copy" and len(v.args) == 1 \
                     and isinstance(v.args[0], ast.Name) and env.get(v.args[0].id) == ("vec", "v"):
-                env[tgt] = ("coq", "Ok v")
+                env[tgt] = ("coq", "Ok None")
                 continue
             if isinstance(v, ast.Call) and ast.unparse(v.func) in ("np.matmul", "np.dot") and len(v.args) == 2 \
                     and not v.keywords and isinstance(v.args[0], ast.Name) \
@@ -273,7 +273,7 @@ def run_ts(stmts, env):
                 m = ast.unparse(v.args[1])
                 if m not in MATS:
                     err(f"unknown lattice matrix `{m}`", st)
-                env[tgt] = ("coq", f"rmap (vmat O v) ({MATS[m]})")
+                env[tgt] = ("coq", f"rmap Some ({MATS[m]})")
                 continue
             err(f"unsupported assignment `{ast.unparse(st)}`", st)
         if isinstance(st, ast.If):
@@ -314,9 +314,15 @@ def gen_transform_space(tree):
     # the check is kept so that the generated table is known to be total on valid input only)
     bad = run_ts(fn.body, {"v_in": ("vec", "v"), "space_in": "x", "space_out": "d"})
     note = "(* invalid space string: " + str(bad) + " *)"
-    return ("\n(* _transform_space: which lattice matrix multiplies the row vector(s) *)\n"
+    return ("\n(* _transform_space: which lattice matrix multiplies the row vector(s);\n"
+            "   None = np.copy(v_in).  The matrix (and any exception raised while fetching it)\n"
+            "   does not depend on the vectors. *)\n"
+            "Definition transform_matrix {T} (O : Ops T) (L : lattice T) (si so : space)\n"
+            "  : res (option (mat3 T)) :=\n  match si, so with\n" + "\n".join(rows) + "\n  end.\n" + note + "\n"
             "Definition transform_space {T} (O : Ops T) (L : lattice T) (si so : space) (v : vec3 T)\n"
-            "  : res (vec3 T) :=\n  match si, so with\n" + "\n".join(rows) + "\n  end.\n" + note + "\n")
+            "  : res (vec3 T) := rmap (fun M => apply_matrix O M v) (transform_matrix O L si so).\n"
+            "Definition transform_space_arr {T} (O : Ops T) (L : lattice T) (si so : space) (vs : list (vec3 T))\n"
+            "  : res (list (vec3 T)) := rmap (fun M => List.map (apply_matrix O M) vs) (transform_matrix O L si so).\n")
 
 
 # ------------------------------------------------------------ Miller.cross / space
@@ -401,7 +407,7 @@ def unit_c09miller(repo):
     src = open(os.path.join(repo, REL)).read()
     tree = ast.parse(src)
     text = HEADER.format(src=REL).replace("From Verif Require Import Scalar.",
-                                          "From Verif Require Import Scalar C09Lin.")
+                                          "From Verif Require Import Scalar C09Lin.").replace("From Coq Require Import ZArith Bool.", "From Coq Require Import ZArith Bool List.")
     text += gen_kernels(tree)
     text += gen_checks(tree)
     text += gen_transform_space(tree)
